@@ -354,7 +354,7 @@ func c11Run(b core.Batch, r *core.Recorder) {
 	case "cakinds":
 		// the configured CA may carry any common key type (the README has operators create an RSA one)
 		wd, _ := os.Getwd()
-		for _, kind := range []string{"p256", "p384", "p521", "rsa2048", "rsa3072", "ed25519"} {
+		for _, kind := range []string{"p256", "p384", "p521", "rsa2048", "rsa3072", "ed25519", "p256+bundle", "rsa2048+bundle"} {
 			kca, err := rig.NewHarnessCAKind(filepath.Join(wd, "ca-"+kind), kind)
 			id := "k-" + kind
 			if !r.Case(id, kind) {
@@ -453,6 +453,34 @@ func c11Run(b core.Batch, r *core.Recorder) {
 			t2.Close()
 			r.Count("handshakes_verified", 2)
 			r.Nontrivial("wire", t.target)
+		}
+		// the leaf names the CONNECT target, whatever the client's TLS hello says: another server name, or none
+		for i, t := range []struct{ target, host, sni string }{
+			{"192.0.2.7:8443", "192.0.2.7", "service.example"}, {"sni-a.example:443", "sni-a.example", "sni-b.example"}, {"sni-c.example:443", "sni-c.example", ""},
+			{"[2001:db8::77]:443", "2001:db8::77", "v6-front.example"}, {"sni-d.example:443", "sni-d.example", "SNI-D.example"}, {"10.9.8.7:443", "10.9.8.7", ""},
+		} {
+			id := fmt.Sprintf("sni%d", i)
+			if !r.Case(id, t) {
+				continue
+			}
+			r.Eval(1)
+			cs := map[string]any{"id": id, "connect_target": t.target, "client_sni": t.sni}
+			pt, err := rig.ConnectOnly(p.Addr, t.target)
+			if err != nil {
+				r.NotJudged("sni-connect-refused")
+				continue
+			}
+			leaf, err := pt.HandshakeAs(t.sni)
+			if err != nil {
+				r.Violation("C11", "C11:wire:sni-differs:handshake-failed", fmt.Sprintf("CONNECT %s with SNI %q: %v", t.target, t.sni, err), cs, nil)
+				continue
+			}
+			r.Count("handshakes_with_another_sni", 1)
+			r.Nontrivial("sni", t.target, t.sni)
+			opts := x509.VerifyOptions{Roots: p.CA.Pool, DNSName: t.host, KeyUsages: []x509.ExtKeyUsage{x509.ExtKeyUsageServerAuth}}
+			if _, err := leaf.Verify(opts); err != nil {
+				r.Violation("C11", "C11:wire:sni-differs:leaf-does-not-name-the-connect-target", fmt.Sprintf("CONNECT %s with SNI %q: the presented certificate (DNS=%v IP=%v) does not verify for %q: %v", t.target, t.sni, leaf.DNSNames, leaf.IPAddresses, t.host, err), cs, nil)
+			}
 		}
 		// overlapping tunnels to different hosts: each tunnel must be served the certificate of ITS target, also
 		// when other tunnels are set up between its CONNECT and its handshake, and when many handshake at once
@@ -561,12 +589,12 @@ func init() {
 		ID:    "C11",
 		Level: "exploration",
 		Rule: "API level: 55 fixed host:port forms (case mixes, trailing dot, underscore, punycode, 63-char labels, wildcard, spaces, IPv4 edge values, bracketed IPv6 incl. zone / v4-mapped / malformed, ports 0..65535 and malformed) plus seeded random DNS / IPv4 / IPv6 targets through the real GetCertForHost; every returned leaf: x509.Verify against the CA pool for exactly that host now, exactly one SAN, validity window, private key signs a nonce the leaf key verifies, second call returns the same pointer; " +
-			"expiry: harness-signed leaves with NotAfter = now - {1 s, 1 min, 1 h, 1 d, 10 y} placed in the cache, then 1 or 16 concurrent requests; bursts of 2..64 concurrent first requests for one new host or for as many distinct new hosts, alternately on a CA instance that has issued nothing yet and on a used one (race build), followed by a request for a further new host; CA key types p256/p384/p521/rsa2048/rsa3072/ed25519 (leaf checks + handshakes through a proxy configured with that CA); wire: CONNECT + TLS handshakes verified by Go's TLS client, twice per target; groups of 2-5 tunnels to different hosts whose CONNECTs are all answered before any handshake starts (handshakes then in reverse order, or all at once). Non-trivial = distinct accepted target / expiry case / burst / handshake target.",
+			"expiry: harness-signed leaves with NotAfter = now - {1 s, 1 min, 1 h, 1 d, 10 y} placed in the cache, then 1 or 16 concurrent requests; bursts of 2..64 concurrent first requests for one new host or for as many distinct new hosts, alternately on a CA instance that has issued nothing yet and on a used one (race build), followed by a request for a further new host; CA key types p256/p384/p521/rsa2048/rsa3072/ed25519 and CA certificate files that are bundles (issuing CA first) (leaf checks + handshakes through a proxy configured with that CA); wire: CONNECT + TLS handshakes verified by Go's TLS client, twice per target; tunnels whose TLS hello names another host than the CONNECT target, or none (the leaf must still name the target); groups of 2-5 tunnels to different hosts whose CONNECTs are all answered before any handshake starts (handshakes then in reverse order, or all at once). Non-trivial = distinct accepted target / expiry case / burst / handshake target.",
 		Assumptions: []string{"targets the CA refuses are counted, not judged", "x509.Verify and crypto/tls of the Go standard library are the independent oracle"},
 		Plan:        c11Plan,
 		Run:         c11Run,
 		Parallel:    4,
-		Floors: map[string]map[string]int64{"quick": {"accepted_dns": 50, "accepted_ipv4": 50, "accepted_ipv6": 50, "expiry_cases": 40, "burst_cases": 90, "burst_cases_on_a_ca_that_had_issued_nothing": 40, "ca_kinds": 6, "handshakes_verified": 40, "overlapping_tunnel_groups": 10},
-			"thorough": {"accepted_dns": 5000, "accepted_ipv4": 5000, "accepted_ipv6": 5000, "expiry_cases": 40, "burst_cases": 900, "burst_cases_on_a_ca_that_had_issued_nothing": 400, "ca_kinds": 6, "handshakes_verified": 1500, "overlapping_tunnel_groups": 400}},
+		Floors: map[string]map[string]int64{"quick": {"accepted_dns": 50, "accepted_ipv4": 50, "accepted_ipv6": 50, "expiry_cases": 40, "burst_cases": 90, "burst_cases_on_a_ca_that_had_issued_nothing": 40, "ca_kinds": 8, "handshakes_verified": 40, "overlapping_tunnel_groups": 10},
+			"thorough": {"accepted_dns": 5000, "accepted_ipv4": 5000, "accepted_ipv6": 5000, "expiry_cases": 40, "burst_cases": 900, "burst_cases_on_a_ca_that_had_issued_nothing": 400, "ca_kinds": 8, "handshakes_verified": 1500, "overlapping_tunnel_groups": 400}},
 	})
 }
